@@ -897,6 +897,8 @@ Definition rotate_keyset (mem_ks : list ksrow) (active : Z) (fee : Z) : prog (re
   match sd with
   | RErr => fail EDb
   | ROk _ =>
+    (* GenerateKeyset refuses a fee the signed 64-bit column of the keysets table cannot hold *)
+    if two63 <=? fee then fail EDb else
     match find_ks active mem_ks with
     | None => Panic      (* nil activeKeyset dereferenced *)
     | Some a =>
